@@ -16,7 +16,7 @@ LEVEL_TEXT = ('Bounded symbolic verification: (1) construct -> parse round trip 
               'codes is decoded by the real Open.parse and must yield exactly the encoded values; the encoder output is also read '
               'back by an independent OPEN reader.')
 LEVEL_NOTE = 'Capability values of the variable-length kinds are short (<= 2 entries). Identifier text via the netaddr model (replayed with the real one).'
-LEVEL_ADDED = 'Also: several ADD-PATH capabilities in one OPEN and several tuples in one capability (independent encoder). Capability dictionaries as the configuration builds them (every key present, False where off); a repeated ADD-PATH tuple.'
+LEVEL_ADDED = 'Also: several ADD-PATH capabilities in one OPEN and several tuples in one capability (independent encoder). Capability dictionaries as the configuration builds them (every key present, False where off); a repeated ADD-PATH tuple. Extended-next-hop and two-family capability sets with a 4-octet AS at the quick tier.'
 TECHNIQUE = 'symbolic execution of the OPEN/NOTIFICATION/KEEPALIVE/ROUTE-REFRESH codecs (CrossHair+z3): round trip + differential against an independent RFC encoder/reader'
 EXPLANATION = 'C14: codec round trips and independent-encoder differential for the four non-UPDATE messages.'
 BOUNDS = 'AS 1..2^32-1, hold 0..65535, id 0..2^32-1 symbolic; 24 capability subsets; <= 4 capabilities per OPEN in the independent half, all orders of <= 3; NOTIFICATION data <= 4 octets'
@@ -251,7 +251,7 @@ def obligations(tier, seed):
     capsets.append(('flags-without-mp', {'route_refresh': True, 'four_bytes_as': True}))
     for name, d in capsets:
         for cls in ('small', 'big'):
-            if quick and cls == 'big' and name not in ('none', 'mp-only', 'route_refresh', 'four_bytes_as', 'addpath-both', 'mp-only/explicit-false'):
+            if quick and cls == 'big' and name not in ('none', 'mp-only', 'route_refresh', 'four_bytes_as', 'addpath-both', 'mp-only/explicit-false', 'extnh', 'two-families'):
                 continue
             out.append(ob('C14/open-rt/%s/as=%s' % (name, cls), 'ob_open_rt', {'caps': d, 'as_class': cls}, covers=['parsed']))
     for n in range(0, 5):
